@@ -258,6 +258,78 @@ def _relaxed_value(rng, cd, t, v, counter):
 
 
 # ------------------------------------------------------------------------------------------------------------------
+# invalid values (to be rejected): one defect at a chosen place of a valid value
+# ------------------------------------------------------------------------------------------------------------------
+def spoil_composite(rng, cd, idx, cv):
+    """
+    Returns (value, what) - cv with exactly one defect that makes it invalid for the type (an array over its capacity /
+    of the wrong fixed length, a union with two or no variants, an unknown field, a non-number where a number belongs) -
+    or None when the value offers no place for one. Later places are preferred: the rejection then happens after a part
+    of the representation has been produced.
+    """
+    sites = [0]
+    _spoil(cd, ("ref", idx), cv, sites, None, rng)
+    if not sites[0]:
+        return None
+    k = max(rng.randrange(sites[0]), rng.randrange(sites[0]))
+    what = []
+    out = _spoil(cd, ("ref", idx), cv, [0], (k, what), rng)
+    return (out, what[0]) if what else None
+
+
+def _spoil(cd, t, v, sites, target, rng):
+    here = sites[0]
+    k = t[0]
+
+    def hit():
+        return target is not None and target[0] == here
+
+    if k in ("fixed", "var"):
+        cap = t[2]
+        if cap <= 400 or k == "fixed":
+            sites[0] += 1
+            if hit():
+                target[1].append("%s array of capacity %d with a wrong length" % (k, cap))
+                if isinstance(v, str):
+                    return v + "x" * (cap - len(v.encode("utf-8")) + 1) if k == "var" else v[:-1]
+                if isinstance(v, bytes):
+                    return v + bytes(cap - len(v) + 1) if (k == "var" or rng.random() < 0.5) else v[:-1]
+                extra = [cd.default(t[1]) for _ in range(cap - len(v) + 1)]
+                return list(v) + extra if (k == "var" or rng.random() < 0.5 or not v) else list(v)[:-1]
+        if isinstance(v, list):
+            return [_spoil(cd, t[1], x, sites, target, rng) for x in v]
+        return v
+    if k == "ref":
+        d = cd.u[t[1]]
+        types = {f["name"]: f["type"] for f in d["fields"] if "type" in f}
+        sites[0] += 1
+        if hit():
+            out = dict(v)
+            if d["kind"] == "union":
+                others = [n for n in types if n not in v]
+                if others and rng.random() < 0.6:
+                    target[1].append("union value with two variants")
+                    out[others[0]] = cd.default(types[others[0]])
+                elif rng.random() < 0.5:
+                    target[1].append("union value with no variant")
+                    out = {}
+                else:
+                    target[1].append("union value with an unknown variant")
+                    out = {"no_such_variant": 0}
+            else:
+                target[1].append("structure value with an unknown field")
+                out["no_such_field"] = 0
+            return out
+        return {name: _spoil(cd, types[name], x, sites, target, rng) for name, x in v.items()}
+    if k in ("uint", "int", "float", "bool", "byte", "utf8"):
+        sites[0] += 1
+        if hit():
+            target[1].append("%s where a number belongs" % "a string / None / a list")
+            return rng.choice(["x", None, [1], {"a": 1}])
+    return v
+
+
+# ------------------------------------------------------------------------------------------------------------------
 # hostile byte strings
 # ------------------------------------------------------------------------------------------------------------------
 def gen_bytes_variants(rng, rep: bytes, max_len: int, n_random: int, n_prefix: int, n_flip: int):
